@@ -46,7 +46,8 @@ RULE = ('seeded lenses from tools/lensgen (planes/spheres/conics/aspheres/polyno
         'caller-made distribution objects, seeded random), trace_generic (python floats, ints, arrays, size-1 arrays, '
         'mixed), 15 paraxial queries, marginal/chief ray, paraxial.trace, 14 aberration queries, n(), Wavefront, OPDFan, '
         'OPD, ZernikeOPD, FFTPSF, FFTMTF, GeometricMTF and the 10 analysis classes; non-trivial = call returned without '
-        'raising')
+        'raising; multi-item requests (several fields x several wavelengths in one analysis call, lists in several '
+        'orders) on chromatic lenses against the single-pair requests')
 COQ_TARGETS = ['Lemmas/L_C13.vo', 'Lemmas/L_C13_wavefront.vo', 'Model/M_C13.vo', 'Gen/Geometries.vo', 'Gen/C13Kern.vo']
 PARTIAL = [
     'newton_batch_tolerance_partial: the bound 2 tol/m + 2 tol/|N| between a ray alone and in company needs the residual '
@@ -633,7 +634,63 @@ def check_method_histories(ctx, offset=6, nl=None):
     return res
 
 
+def check_request_decomposition(ctx, offset=7, nl=None, corpus=True):
+    """one analysis call that covers several (field, wavelength) pairs: the stored entry of every pair is
+    bit-identical to the entry of the request for that pair ALONE on a fresh lens, whatever the other pairs of the
+    request are and in whatever order they are listed (the result for one pair does not depend on what was traced
+    before it in the same call).  Lenses: catalogue glass (lateral colour), off-axis and skew fields, wavelengths
+    given as explicit lists in three orders, fields in two orders."""
+    c13 = _lib()
+    rng = random.Random(ctx.seed * 13 + offset)
+    nl = ctx.n(3, 30) if nl is None else nl
+    res = {'name': 'multi-item-request-equals-single-item-requests', 'n': 0, 'nontrivial': 0, 'samples': [],
+           'disagreements': [],
+           'histogram': {'input_class': 'one analysis call over several (field, wavelength) pairs on a chromatic lens '
+                                        'vs the same pair requested alone; wavelength / field lists in several orders',
+                         'lenses': {}, 'classes': {}, 'pairs_compared': 0, 'requests': 0, 'raised': 0,
+                         'off_axis_pairs_not_first_in_request': 0}}
+    h = res['histogram']
+    specs = (c13.chromatic_specs() + c13.dispersive_specs()) if corpus else []
+    tries = 0
+    while nl and tries < 40 * nl and len(specs) < nl + (5 if corpus else 0):
+        tries += 1
+        spec = c13.gen_spec(rng, variant=rng.choice(['plain', 'vignetting', 'coated', 'newton', 'any']))
+        if not c13.is_dispersive(spec) or len(spec['surfaces']) > 7 or \
+                not any(f[0] for f in spec['fields']) or any(s.get('material') == 'mirror' for s in spec['surfaces']):
+            continue
+        try:
+            c13.build(spec)
+        except Exception:   # noqa
+            continue
+        specs.append(spec)
+    seen = set()
+    for spec in specs:
+        classes = None if spec['variant'].startswith(('chromatic', 'dispersive')) else \
+            ['Wavefront', 'OPDFan', 'RmsWavefrontErrorVsField', 'SpotDiagram', 'RayFan', 'PupilAberration',
+             'Distortion', 'FieldCurvature']
+        viol, st = c13.request_decomposition(rng, spec, c13.build, classes=classes)
+        v = spec['variant'].split(':')[0]
+        h['lenses'][v] = h['lenses'].get(v, 0) + 1
+        for k in ('pairs_compared', 'requests', 'raised', 'off_axis_pairs_not_first_in_request'):
+            h[k] += st[k]
+        for k, n in st['classes'].items():
+            h['classes'][k] = h['classes'].get(k, 0) + n
+        res['n'] += st['pairs_compared']
+        res['nontrivial'] += st['off_axis_pairs_not_first_in_request']
+        for x in viol:
+            if x['cls'] in seen:
+                continue
+            seen.add(x['cls'])
+            res['disagreements'].append(dict(x, history=[], violates_property=True))
+    res['samples'].append({'lens': 'chromatic-singlet (N-SF5, 7 deg)', 'request': 'Wavefront(fields=[3 fields], '
+                           'wavelengths=[0.4861, 0.5876, 0.6563])', 'compared': 'data[i][j] with '
+                           'Wavefront(fields=[field i], wavelengths=[wavelength j]).data[0][0] on a fresh lens',
+                           'expected': 'bit identical'})
+    return res
+
+
 def system_checks(ctx):
+    yield check_request_decomposition(ctx)
     yield check_method_histories(ctx)
     yield check_state_machine(ctx)
     yield check_caller_arrays(ctx)
@@ -653,6 +710,8 @@ def search(ctx, broken, disagreements):
     r = check_batch_independence(ctx, offset=11, nl=ctx.n(40, 300))
     out += [d for d in r['disagreements'] if d.get('violates_property')]
     r = check_method_histories(ctx, offset=12, nl=ctx.n(5, 40))
+    out += [d for d in r['disagreements'] if d.get('violates_property')]
+    r = check_request_decomposition(ctx, offset=14, nl=ctx.n(3, 40), corpus=False)
     out += [d for d in r['disagreements'] if d.get('violates_property')]
     return out or None
 
